@@ -73,7 +73,15 @@ def norm(e):
         return ["call", _base(norm(e[1])), [norm(a) for a in e[2]]]
     if k == "fun":
         return ["fun", e[1], [norm_s(s) for s in e[2]]]
+    if k == "op":
+        return ["op", e[1], [_atom(norm(a)) if e[1] not in ("arr", "obj") else norm(a) for a in e[2]]] + list(e[3:])
+    if k == "logic":
+        return ["logic", e[1], _atom(norm(e[2])), _atom(norm(e[3]))]
     raise ValueError(k)
+
+
+def _atom(e):
+    return e if e[0] in ("num", "str", "bool", "id", "dot", "idx", "call", "paren") else ["paren", e]
 
 
 def _base(e):
@@ -95,13 +103,27 @@ def norm_s(s):
         return ["if", norm(s[1]), [norm_s(x) for x in s[2]], [norm_s(x) for x in s[3]]]
     if k == "fun":
         return ["fun", s[1], s[2], [norm_s(x) for x in s[3]]]
+    if k == "for":
+        return ["for", [norm_s(x) for x in s[1]], None if s[2] is None else norm(s[2]),
+                None if s[3] is None else norm(s[3]), [norm_s(x) for x in s[4]]]
     raise ValueError(k)
 
 
 def _leftmost(e):
-    while e[0] in ("dot", "idx", "add", "cond", "call"):
-        e = e[1]
-    return e[0]
+    while True:
+        if e[0] in ("dot", "idx", "add", "cond", "call"):
+            e = e[1]
+        elif e[0] == "logic":
+            e = e[2]
+        elif e[0] == "op":
+            if e[1] == "obj":
+                return "fun"                 # `{` at the start of a statement would be a block: parenthesise like `function`
+            if len(e[2]) == 2 and e[1] not in ("arr",):
+                e = e[2][0]
+            else:
+                return "op"
+        else:
+            return e[0]
 
 
 def pe(e):
@@ -131,6 +153,25 @@ def pe(e):
         return pe(e[1]) + "(" + ", ".join(pe(a) for a in e[2]) + ")"
     if k == "fun":
         return "function(" + ", ".join(e[1]) + ") { " + pss(e[2]) + " }"
+    if k == "logic":
+        return pe(e[2]) + (" && " if e[1] else " || ") + pe(e[3])
+    if k == "op":
+        o, a = e[1], e[2]
+        if o == "null":
+            return "null"
+        if o == "regex":
+            return e[3][0]
+        if o == "arr":
+            return "[" + ", ".join(pe(x) for x in a) + "]"
+        if o == "obj":
+            return "{" + ", ".join(json.dumps(kk) + ": " + pe(x) for kk, x in zip(e[3], a)) + "}"
+        if o == "!":
+            return "!" + pe(a[0])
+        if o == "neg":
+            return "-" + pe(a[0])
+        if o == "typeof":
+            return "typeof " + pe(a[0])
+        return pe(a[0]) + " " + o + " " + pe(a[1])
     raise ValueError(k)
 
 
@@ -141,6 +182,8 @@ def ps(s):
     if k == "vari":
         return "var " + s[1] + " = " + pe(s[2]) + ";"
     if k == "expr":
+        if s[1][0] == "op" and s[1][1] == "throw":
+            return "throw " + pe(s[1][2][0]) + ";"
         return pe(s[1]) + ";"
     if k == "ret":
         return "return " + pe(s[1]) + ";"
@@ -148,6 +191,10 @@ def ps(s):
         return "if (" + pe(s[1]) + ") { " + pss(s[2]) + " } else { " + pss(s[3]) + " }"
     if k == "fun":
         return "function " + s[1] + "(" + ", ".join(s[2]) + ") { " + pss(s[3]) + " }"
+    if k == "for":
+        init = "; ".join(ps(x)[:-1] for x in s[1])
+        return ("for (" + init + "; " + ("" if s[2] is None else pe(s[2])) + "; " + ("" if s[3] is None else pe(s[3]))
+                + ") { " + pss(s[4]) + " }")
     raise ValueError(k)
 
 
@@ -228,6 +275,14 @@ def ce(e):
         return f"(ECall {ce(e[1])} {args})"
     if k == "fun":
         return f"(EFun {coq_list([coq_str(p) for p in e[1]])} {css(e[2])})"
+    if k == "op":
+        args = "ENil"
+        for a in reversed(e[2]):
+            args = f"(ECons {ce(a)} {args})"
+        extra = e[3] if len(e) > 3 else []
+        return f"(EOp {coq_str(e[1])} {coq_list([coq_str(x) for x in extra])} {args})"
+    if k == "logic":
+        return f"(ELogic {coq_bool(e[1])} {ce(e[2])} {ce(e[3])})"
     raise ValueError(k)
 
 
@@ -236,6 +291,8 @@ def cs(s):
     if k == "var":
         return f"(SVar {coq_str(s[1])})"
     if k == "vari":
+        if s[2][0] == "fun":                 # var x = function(ps) { body };
+            return f"(SFunE {coq_str(s[1])} {coq_list([coq_str(p) for p in s[2][1]])} {css(s[2][2])})"
         return f"(SVarI {coq_str(s[1])} {ce(s[2])})"
     if k == "expr":
         return f"(SExpr {ce(s[1])})"
@@ -245,6 +302,10 @@ def cs(s):
         return f"(SIf {ce(s[1])} {css(s[2])} {css(s[3])})"
     if k == "fun":
         return f"(SFun {coq_str(s[1])} {coq_list([coq_str(p) for p in s[2]])} {css(s[3])})"
+    if k == "for":
+        c = "(EBool true)" if s[2] is None else ce(s[2])
+        u = "(ENum 0%N)" if s[3] is None else ce(s[3])
+        return f"(SFor {css(s[1])} {c} {u} {css(s[4])})"
     raise ValueError(k)
 
 
@@ -310,6 +371,8 @@ RESERVED_ALL = set("break do instanceof typeof case else new var catch finally r
 
 def may_inp(e):
     k = e[0]
+    if k == "logic":
+        return may_inp(e[2]) or may_inp(e[3])
     if k == "id" or k == "call":
         return True
     if k == "paren":
@@ -376,6 +439,8 @@ def hoist_vars(ss):
             out.append(s[1])
         elif s[0] == "if":
             out += hoist_vars(s[2]) + hoist_vars(s[3])
+        elif s[0] == "for":
+            out += hoist_vars(s[1]) + hoist_vars(s[4])
     return out
 
 
@@ -389,6 +454,8 @@ def may_inpB(L, e):
         return may_inpB(L, e[2]) or may_inpB(L, e[3])
     if k == "assign":
         return may_inpB(L, e[2])
+    if k == "logic":
+        return may_inpB(L, e[2]) or may_inpB(L, e[3])
     return False
 
 
@@ -413,7 +480,13 @@ def okb_e(L, e):
     if k == "assign":
         return e[1] in L and okb_e(L, e[2]) and not may_inpB(L, e[2])
     if k == "call":
-        return e[1][0] == "id" and all(okb_e(L, a) and not may_inpB(L, a) for a in e[2])
+        f = e[1]
+        fok = f[0] == "id" or (f[0] == "dot" and okb_e(L, f) and not may_inpB(L, f[1]))
+        return fok and all(okb_e(L, a) and not may_inpB(L, a) for a in e[2])
+    if k == "op":
+        return all(okb_e(L, a) and not may_inpB(L, a) for a in e[2])
+    if k == "logic":
+        return okb_e(L, e[2]) and okb_e(L, e[3])
     return False
 
 
@@ -421,6 +494,12 @@ def okb_s(top, L, s):
     k = s[0]
     if k == "var":
         return s[1] in L
+    if k == "vari" and s[2][0] == "fun":
+        Lf = list(s[2][1]) + hoist_vars(s[2][2])
+        return top and s[1] in L and all(okb_s(False, Lf, x) for x in s[2][2]) and "inputs" not in Lf
+    if k == "for":
+        return (all(okb_s(False, L, x) for x in s[1]) and (s[2] is None or okb_e(L, s[2]))
+                and (s[3] is None or okb_e(L, s[3])) and all(okb_s(False, L, x) for x in s[4]))
     if k == "vari":
         return s[1] in L and okb_e(L, s[2]) and not may_inpB(L, s[2])
     if k == "expr":
@@ -452,6 +531,8 @@ def may_inpT(A, e):
         return may_inpT(A, e[2]) or may_inpT(A, e[3])
     if k == "assign":
         return may_inpT(A, e[2])
+    if k == "logic":
+        return may_inpT(A, e[2]) or may_inpT(A, e[3])
     return False
 
 
@@ -492,9 +573,24 @@ def okt_e(br, A, e, why=None):
                 return (not br) or r[1] == "inputs" or no("alias re-bound to another identifier inside a branch")
             return r[1] not in A or no("inconsistent alias set")
         return (not may_inpT(A, r)) or no("alias flows through a non-identifier right-hand side")
+    if k == "op":
+        for a in e[2]:
+            if not okt_e(br, A, a, why):
+                return False
+            if may_inpT(A, a):
+                return no("inputs or an alias used as a whole (operand of an operator / element of a literal)")
+        return True
+    if k == "logic":
+        return okt_e(br, A, e[2], why) and okt_e(True, A, e[3], why)
     if k == "call":
-        if e[1][0] != "id":
-            return no("call of a non-identifier callee (method call, function expression)")
+        f = e[1]
+        if f[0] == "dot":
+            if not okt_e(br, A, f, why):
+                return False
+            if may_inpT(A, f[1]):
+                return no("method call on inputs or an alias (whole-object use)")
+        elif f[0] != "id":
+            return no("call of a callee that is neither an identifier nor a method (function expression, call result)")
         for a in e[2]:
             if not okt_e(br, A, a, why):
                 return False
@@ -512,6 +608,18 @@ def okt_s(br, A, s, why=None):
     k = s[0]
     if k == "var":
         return True
+    if k == "for":
+        return no("loop (only in the alias-free fragment)")
+    if k == "vari" and s[2][0] == "fun":
+        Lf = list(s[2][1]) + hoist_vars(s[2][2])
+        if br:
+            return no("function expression inside a branch")
+        if s[1] in A:
+            return no("function stored in an alias-capable variable")
+        if not all(okb_s(False, Lf, x) for x in s[2][2]):
+            return no("function body outside the alias-free function fragment (outer variables, nesting, aliasing, "
+                      "self/runtime)")
+        return ("inputs" not in Lf and not any(x in A for x in Lf)) or no("function parameter/var shadows inputs or an alias")
     if k == "vari":
         return okt_e(br, A, s[2], why) and ((not may_inpT(A, s[2])) or no("inputs or an alias in a var initialiser"))
     if k in ("expr", "ret"):
@@ -541,13 +649,17 @@ def asg_e(e):
         return ([(e[1], e[2][1])] if e[2][0] == "id" else []) + asg_e(e[2])
     if k == "call":
         return asg_e(e[1]) + [p for a in e[2] for p in asg_e(a)]
+    if k == "op":
+        return [p for a in e[2] for p in asg_e(a)]
+    if k == "logic":
+        return asg_e(e[2]) + asg_e(e[3])
     return []
 
 
 def asg_s(ss):
     out = []
     for s in ss:
-        if s[0] in ("vari",):
+        if s[0] in ("vari",) and s[2][0] != "fun":
             out += asg_e(s[2])
         elif s[0] in ("expr", "ret"):
             out += asg_e(s[1])
@@ -704,8 +816,11 @@ class Gen:
             return ["id", rng.choice(ctx.strs)]
         if r < 0.78:
             return ["add", self.g_str(ctx, d + 1), self.g_str(ctx, d + 1) if rng.random() < 0.8 else ["num", rng.randrange(0, 12)]]
-        if r < 0.86:
+        if r < 0.83:
             return ["cond", self.g_any(ctx, d + 1), self.g_str(ctx, d + 1), self.g_str(ctx, d + 1)]
+        if r < 0.86:
+            return ["call", ["dot", self.g_str(ctx, d + 2), rng.choice(["concat", "concat", "toString"])], []] \
+                if rng.random() < 0.3 else ["call", ["dot", self.g_str(ctx, d + 2), "concat"], [self.g_str(ctx, d + 2)]]
         if r < 0.95 and ctx.funs:
             f, ar = rng.choice(ctx.funs)
             return ["call", ["id", f], [self.g_str(ctx, d + 1) for _ in range(ar)]]
@@ -717,8 +832,23 @@ class Gen:
         base = self.inp(ctx)
         if r < 0.45 or not base:
             return self.g_str(ctx, d)
-        if r < 0.55:
+        if r < 0.50:
             return ["num", rng.randrange(0, 30)]
+        if r < 0.55:
+            q = rng.random()
+            if q < 0.25:
+                return ["op", rng.choice(["<", ">", "<=", ">=", "*", "==="]), [["num", rng.randrange(0, 9)], ["num", rng.randrange(0, 9)]]]
+            if q < 0.45:
+                return ["op", rng.choice(["===", "!==", "==", "!="]), [self.g_str(ctx, d + 2), self.g_str(ctx, d + 2)]]
+            if q < 0.6:
+                return ["op", "!", [self.g_any(ctx, d + 2)]]
+            if q < 0.75:
+                return ["logic", rng.random() < 0.5, self.g_any(ctx, d + 2), self.g_str(ctx, d + 2)]
+            if q < 0.85:
+                return ["op", rng.choice(["==", "!=="]), [self.access(base, rng.choice(["zz", "a"])), ["op", "null", []]]]
+            if q < 0.93:
+                return ["op", "arr", [self.g_str(ctx, d + 2) for _ in range(rng.randrange(0, 3))]]
+            return ["op", "obj", [self.g_str(ctx, d + 2), self.g_any(ctx, d + 2)], ["class", "p q"]]
         if r < 0.85:
             return self.access(base, rng.choice(["c", "t", "z", "zz", "q"]))
         if r < 0.92:
@@ -823,8 +953,12 @@ class Gen:
                 body.append(["expr", ["assign", rng.choice(ctx.strs), self.g_str(ctx, 1)]])
             elif r < 0.55:
                 body.append(["if", self.g_any(ctx, 1), self.branch(ctx, 0), self.branch(ctx, 0)])
-            elif r < 0.8:
+            elif r < 0.75:
                 body.extend(self.plain_fun(ctx))
+            elif r < 0.85 and not aliasing:
+                i = self.fresh("i")
+                body.append(["for", [["vari", i, ["num", 0]]], ["op", "<", [["id", i], ["num", rng.randrange(0, 3)]]],
+                             ["assign", i, ["add", ["id", i], ["num", 1]]], self.branch(ctx, 1)])
             else:
                 body.append(["expr", self.g_any(ctx, 1)])
         al = [a for a in ctx.aliases if a != "inputs"]
@@ -1041,14 +1175,18 @@ class C31(Prop):
                   "to /repo by running resolve_dependencies and the model listener on generated and on real-world "
                   "expressions, and to JavaScript by comparing the model evaluator's read set with node's.")
     LEVEL_NOTE = ("the positive theorems quantify over the evaluations of the MODEL evaluator that terminate normally: on "
-                  "in-fragment programs where it answers Unsup (numeric + on booleans/undefined, string characters, ...) "
-                  "they are vacuous and the read-set comparison with node is skipped; the evidence sample "
-                  "model_evaluator_support counts those cases per run; 'every inputs object' is a Coq statement, the "
-                  "harness exercises 3 shapes of inputs. partial: nested or shadowing functions, function expressions, method calls, and every construct "
-                  "outside the modelled ES5 subset (object/array literals, comments, operators other than + and ?:, loops, "
-                  "null/throw) are exercised by the correspondence/oracle only; of the expressions found in real .cwl files "
-                  "16/20 (/repo) and 87/160 (cwltool, cwl_utils test data) lie in the proved fragment; the evidence sample "
-                  "realworld_expressions lists, per source, the syntactic feature keeping each remaining one out. Trusted: "
+                  "in-fragment programs where it answers Unsup (numeric + on booleans/undefined, string characters, native "
+                  "methods other than concat/toString, property access on arrays/objects built by the expression) they are "
+                  "vacuous and the read-set comparison with node is skipped; the evidence sample model_evaluator_support "
+                  "counts those cases per run; 'every inputs object' is a Coq statement, the harness exercises 3 shapes of "
+                  "inputs. The modelled syntax now covers comparison/arithmetic/logical operators, null, array/object/regexp "
+                  "literals, method calls, loops, function-valued variables, comments and string escapes (lexer level): of "
+                  "the expressions found in real .cwl files 18/20 (/repo) and 141/160 (cwltool, cwl_utils test data), i.e. "
+                  "159/180 = 88 %, are translated AND lie in the proved fragment; the evidence sample realworld_expressions "
+                  "lists what keeps each remaining one out (function bodies using outer variables or nesting 6, `new` 4, "
+                  "template literals 3, backslash in text 3, a function expression as call argument 1, inputs passed as an "
+                  "argument 1, other syntax 3). partial: nested or shadowing functions, function expressions as values, "
+                  "loops or function-valued variables combined with aliases of inputs, whole-object uses of inputs. Trusted: "
                   "Coq kernel + vm_compute; the hand-written model JsDeps/Model.v; the harness' printer/mini-parser (AST <-> "
                   "JS text) and the ANTLR parser are not modelled; node 20 and cwl_utils' scanner/regex_eval are reference "
                   "oracles. No axioms.")
